@@ -28,7 +28,13 @@ SegClause(r) ==
 \* "adv": (get_address(a) + n).logical_value was res (or an exception: res = -1)
 AdvClause(r) ==
     LET B == BusOf(r) c == Class(B, r.a) IN
-    IF c \in {"rom", "ram"} /\ AdvanceDefined(B, r.a, r.n)
+    \* the address object produced by an advance must be the address of its logical value: same class,
+    \* same file offset; an unmapped result is rejected
+    IF r.res # -1 /\ r.res >= 0 /\ r.res < 16777216 /\ Class(B, r.res) = "none" THEN "advance produced an address in an unmapped bank"
+    ELSE IF r.res # -1 /\ r.res >= 0 /\ r.res < 16777216 /\ Class(B, r.res) \in {"rom", "ram"} /\
+            ~(r.rcls = Class(B, r.res) /\ (r.rcls = "rom" => r.rphys = Physical(B, r.res)))
+         THEN "the advanced address object disagrees with the bus about its own class / offset"
+    ELSE IF c \in {"rom", "ram"} /\ AdvanceDefined(B, r.a, r.n)
     THEN IF r.res = Advance(B, r.a, r.n) THEN "ok" ELSE "advance: expected " \o ToString(Advance(B, r.a, r.n))
     ELSE IF c = "none" THEN (IF r.res = -1 THEN "ok" ELSE "unmapped bank not rejected")
     ELSE "ok"   \* leaves the mapped range / out of window: outside the statement
